@@ -460,4 +460,15 @@ theorem posinv_run {s : St} (hp : PosInv s) (ops : List Op) : PosInv (run s ops)
   | nil => exact hp
   | cons op ops ih => exact ih (posinv_step hp op)
 
+/-- raw effect of a completed withdrawal (truncated subtraction on the vault side; the guards are on the RECORDED
+balances) — the property-level statement is `Gmx.C22.l2_complete_withdrawal` (from a solvent state, subtraction-free). -/
+theorem complete_withdrawal_raw {s s' : St} {u i x y : Nat} {act : Act}
+    (h : complete s u 1 i act x y = some s') :
+    s'.burned = s.burned + act.escMt ∧ s'.minted = s.minted ∧ s'.burned ≤ s'.minted ∧
+    s'.vaultLong = s.vaultLong - x ∧ s'.recLong = s.recLong - x ∧ x ≤ s.recLong ∧
+    s'.vaultShort = s.vaultShort - y ∧ s'.recShort = s.recShort - y ∧ y ≤ s.recShort := by
+  simp [complete] at h
+  obtain ⟨⟨h1, h2, h3⟩, rfl⟩ := h
+  simp [setAct]; omega
+
 end Gmx.Life2
